@@ -1,5 +1,5 @@
 // Driver for C16: calls cctz::ParsePosixSpec (src/time_zone_posix.h) on every input string with the
-// result struct's plain fields pre-filled with 0xAA and again with 0x55, and logs verdict and every
+// result struct's plain fields pre-filled with 0xAA and again with 0x55 (then also with stale abbreviations), and logs verdict and every
 // field the header promises.  No expected values here: spec/PosixTrace.tla decides.
 // usage: drv_posix <hex-lines-file> <out-prefix> <shards>
 #include <fstream>
@@ -51,6 +51,8 @@ int main(int argc, char** argv) {
       memset(&res.dst_offset, fill, sizeof res.dst_offset);
       memset(&res.dst_start, fill, sizeof res.dst_start);
       memset(&res.dst_end, fill, sizeof res.dst_end);
+      // the second pass re-uses a result that holds another zone's abbreviations (as a caller's variable may)
+      if (fill == 0x55) { res.std_abbr = "OLDSTD"; res.dst_abbr = "OLDDST"; }
       int ub;
       bool ok = false;
       VT_GUARD(ub, ok = ParsePosixSpec(spec, &res));
